@@ -23,25 +23,29 @@ pub fn s_poly(n: usize, size: usize) -> f64 { (0..size).map(|j| (n as f64).powi(
 
 /// Noise model for one world. BFV: V bounds the invariant-noise numerator ||[t c(s) - Q m]_Q||; decryption is
 /// correct iff V < Q/2. BGV: W bounds ||[c(s)]_Q|| (= f m_c + t e); correct iff W < Q/2.
-pub struct NoiseModel { pub scheme: Scheme, pub n: f64, pub t: f64, pub has_special: bool, pub lp: f64, pub lqmax_key: f64, pub k_first: f64 }
+/// `sn`: bound on the infinity norm of the secret key (1 for ternary keys; n for a sum of n ternary keys, C18).
+/// `ksk_err`: bound on the error polynomial inside each key-switching key component (21 for locally generated keys).
+pub struct NoiseModel { pub scheme: Scheme, pub n: f64, pub t: f64, pub has_special: bool, pub lp: f64, pub lqmax_key: f64, pub k_first: f64, pub sn: f64, pub ksk_err: f64 }
 
 impl NoiseModel {
     pub fn new(w: &World) -> Self {
         let qmax = *w.levels[0].moduli.iter().max().unwrap() as f64;
         NoiseModel { scheme: w.ps.scheme, n: w.n as f64, t: w.ps.t.max(1) as f64, has_special: w.has_special_prime(),
-            lp: l(w.special_prime() as f64), lqmax_key: l(qmax), k_first: w.levels[0].moduli.len() as f64 }
+            lp: l(w.special_prime() as f64), lqmax_key: l(qmax), k_first: w.levels[0].moduli.len() as f64, sn: 1.0, ksk_err: E_MAX }
     }
     /// log2 bound of a fresh encryption. `switched`: produced through the pk-path modulus switch
     /// (which only shrinks the error and adds a rounding term; no credit is taken for the shrinking).
     pub fn fresh(&self, public_key: bool, switched: bool) -> f64 {
-        let e = if public_key { E_MAX * (2.0 * self.n + 1.0) } else { E_MAX };
-        let round = if switched { self.n + 1.0 } else { 0.0 };
+        let e = if public_key { E_MAX * (2.0 * self.n * self.sn + 1.0) } else { E_MAX };
+        let round = if switched { self.n * self.sn + 1.0 } else { 0.0 };
         match self.scheme {
             Scheme::BFV => l(self.t * e + self.t + self.t * round),
             Scheme::BGV => l(self.t * e + self.t + (self.t + 1.0) * round),
             Scheme::CKKS => l(e + round),
         }
     }
+    /// sum_{j<size} (N ||s||)^j
+    pub fn sp(&self, size: usize) -> f64 { (0..size).map(|j| (self.n * self.sn).powi(j as i32)).sum() }
     pub fn add(&self, a: f64, b: f64) -> f64 { ladd(a, b) }
     pub fn add_plain(&self, a: f64) -> f64 { ladd(a, l(self.t)) }
     /// multiplication by a plaintext with `nnz` non-zero coefficients (lifted values bounded by t)
@@ -50,9 +54,9 @@ impl NoiseModel {
         match self.scheme {
             Scheme::BFV => {
                 let n = self.n; let kk = k as f64;
-                let k1 = (kk + 1.0) * s_poly(n as usize, sa) + 1.0;
-                let k2 = (kk + 1.0) * s_poly(n as usize, sb) + 1.0;
-                let sd = s_poly(n as usize, sa + sb - 1);
+                let k1 = (kk + 1.0) * self.sp(sa) + 1.0;
+                let k2 = (kk + 1.0) * self.sp(sb) + 1.0;
+                let sd = self.sp(sa + sb - 1);
                 lsum(&[
                     l(n * self.t) + ladd(a, b),
                     l(n * self.t) + ladd(a + l(k2), b + l(k1)),
@@ -67,7 +71,8 @@ impl NoiseModel {
     /// key switching (relinearisation, Galois): additive term
     pub fn keyswitch(&self, a: f64, k_level: usize) -> f64 {
         let n = self.n;
-        let base = (l(k_level as f64 * n * E_MAX) + self.lqmax_key - self.lp).exp2();
+        let base = (l(k_level as f64 * n * self.ksk_err) + self.lqmax_key - self.lp).exp2();
+        let n = n * self.sn; // rounding term of the division by P: 1 + N ||s||
         let add = match self.scheme {
             Scheme::BFV => self.t * (base + n + 1.0),
             Scheme::BGV => self.t * base + (1.0 + self.t) * (n + 1.0),
@@ -76,7 +81,7 @@ impl NoiseModel {
         ladd(a, l(add))
     }
     pub fn modswitch(&self, a: f64, size: usize, q_last: u64) -> f64 {
-        let s = s_poly(self.n as usize, size);
+        let s = self.sp(size);
         let add = match self.scheme { Scheme::BFV => self.t * s, Scheme::BGV => (self.t + 1.0) * s, Scheme::CKKS => s };
         ladd(a - l(q_last as f64), l(add))
     }
